@@ -162,7 +162,9 @@ def extra_blocks():
 
 def extra_programs():
     """Hand-written programs every compile correspondence run includes: Pin on a trial where a complex
-    derived factor has no level (/repo c195977: And([1, -1]) for that trial instead of a shifted variable)."""
+    derived factor has no level (/repo c195977: And([1, -1]) for that trial instead of a shifted variable);
+    ExactlyK on a level of a window factor that has no level in any trial of the block (/repo 4d027cb: And([1, -1])
+    for k <> 0, nothing for k = 0, instead of an EQ request on an empty variable list)."""
     f = {"id": 0, "name": "f", "kind": "simple", "levels": [["a", 1], ["b", 1]]}
     rep = {"id": 1, "name": "rep", "kind": "derived", "window": {"type": "transition", "deps": [0]},
            "levels": [{"name": "same", "table": [[["a", "a"]], [["b", "b"]]]}, {"name": "diff", "else": True}]}
@@ -177,6 +179,37 @@ def extra_programs():
                             {"id": 1, "kind": "MinimumTrials", "trials": t}],
             "blocks": [{"id": 0, "kind": "CrossBlock", "design": [0, 1], "crossing": [0], "constraints": [0, 1], "rcc": True}],
             "main": 0}))
+    f0 = {"id": 0, "name": "f0", "kind": "simple", "levels": [["a", 1], ["b", 1]]}
+    f1 = {"id": 1, "name": "f1", "kind": "simple", "levels": [["x", 1], ["y", 1]]}
+    d2 = {"id": 2, "name": "d2", "kind": "derived",
+          "window": {"type": "window", "deps": [1], "width": 2, "stride": 1, "start": 2},
+          "levels": [{"name": "same", "table": [[["x", "x"]], [["y", "y"]]]}, {"name": "diff", "else": True}]}
+    out.append(("corpus:exactlyk3-no-level-in-any-trial", {
+        "factors": [f0, f1, d2],
+        "constraints": [{"id": 0, "kind": "ExactlyK", "k": 3, "level": [2, "same"]}],
+        "blocks": [{"id": 0, "kind": "CrossBlock", "design": [0, 1, 2], "crossing": [0], "constraints": [0], "rcc": True}],
+        "main": 0}))
+    return out
+
+
+def always_blocks():
+    """Directly built blocks every compile correspondence run includes: the block of
+    'corpus:exactlyk3-no-level-in-any-trial' with k = 0 (the `self.k != 0` test of /repo 4d027cb).  The
+    constructor of ExactlyK rejects k = 0 (ValueError), so k is set on the constraint object before the block
+    is built; (name, description-dict, block)."""
+    from sweetpea import Factor, CrossBlock, DerivedLevel, ElseLevel, Window, ExactlyK
+    out = []
+    try:
+        with ir.quiet():
+            f0 = Factor("f0", ["a", "b"])
+            f1 = Factor("f1", ["x", "y"])
+            d2 = Factor("d2", [DerivedLevel("same", Window(lambda w: w[0] == w[-1], [f1], 2, 1, 2)), ElseLevel("diff")])
+            c = ExactlyK(3, (d2, "same"))
+            c.k = 0
+            blk = CrossBlock([f0, f1, d2], [f0], [c])
+        out.append(("direct:exactlyk0-no-level-in-any-trial", {"direct": "ExactlyK", "k": 0, "trials": 2}, blk))
+    except Exception:  # noqa
+        pass
     return out
 
 
@@ -185,6 +218,7 @@ def compile_correspondence(ctx, res, programs, full=True, full_cap=4000, blocks=
     program dicts (harness/ir.py format) or (name, program) pairs; `blocks` a
     list of (name, description, real block) built directly."""
     programs = list(extra_programs()) + list(programs)
+    blocks = list(always_blocks()) + list(blocks)
     cases = []
     for name, desc, block in blocks:
         try:
